@@ -1,0 +1,94 @@
+//go:build verif
+
+package promise
+
+// Contracts for GoVC (see /verif/DESIGN.md). Comment-only: compiles to nothing.
+//
+// Promise is a lock-free single-assignment cell.
+//   isDone  shared atomic flag; the Swap(true) that finds it false elects the single writer
+//   done    immutable channel; its close publishes result/err
+//   result, err   written only by the elected writer, before close(done); read only after done is closed
+// Ghost: pwin(p) = the invocation holding the write token of p (nil: nobody). The token is taken by the
+// winning Swap and given up at close(done).
+//   Z1  done closed  ==> flag set, nobody holds the token, result pointer non-nil
+//   Z3  token held   ==> flag set, done still open
+//   T1  the flag is monotone (so exactly the first Swap wins: all later ones read true)
+//   T2  once done is closed the published fields never change (every awaiter sees the winner's values)
+//
+// isprom(p): p was made by one of the constructors (the zero Promise has no done channel and is not
+// usable); pof(ch): the promise whose done channel is ch (done channels are not shared between promises).
+//
+//@ ghostmap pwin: ref -> ref owned
+//@ ghostmap isprom: ref -> bool once
+//@ ghostmap pof: ref -> ref once
+//
+//@ object Promise
+//@   props C11 C13
+//@   atomic isDone
+//@   immutable done
+//@   published result, err by done token pwin
+//
+//@ ginv Z0: forall p: *Promise {isprom(p)} :: isprom(p) ==> p != nil && allocated(p) && p.done != nil && pof(p.done) == p
+//@ ginv Z1: forall p: *Promise {isprom(p)} :: isprom(p) && closed(p.done) ==> abool(p.isDone) && pwin(p) == nil && p.result != nil
+//@ ginv Z3: forall p: *Promise {pwin(p)} :: pwin(p) != nil ==> isprom(p) && abool(p.isDone) && !closed(p.done)
+//@ gtrans T1: forall p: *Promise {isprom(p)} :: old(isprom(p)) && old(abool(p.isDone)) ==> abool(p.isDone)
+//@ gtrans T2: forall p: *Promise {isprom(p)} :: old(isprom(p)) && old(closed(p.done)) ==> p.result == old(p.result) && p.err == old(p.err)
+//
+//@ func NewPromise
+//@   props C11
+//@   opt frame = skip
+//@   ghost exit: isprom(result) := true
+//@   ghost exit: pof(result.done) := result
+//@   ensures fresh: result != nil && !old(allocated(result)) && isprom(result) && !closed(result.done) && !abool(result.isDone) && pwin(result) == nil
+//
+//@ func NewPromiseWithResult
+//@   props C11
+//@   opt frame = skip
+//@   ghost exit: isprom(result) := true
+//@   ghost exit: pof(result.done) := result
+//@   ensures resolved: result != nil && !old(allocated(result)) && isprom(result) && closed(result.done) && abool(result.isDone)
+//@   ensures value: cellany(result.result) == val && result.err == err
+//
+//@ func NewPromiseWithErr
+//@   props C11
+//@   opt frame = skip
+//@   ensures resolved: result != nil && !old(allocated(result)) && isprom(result) && closed(result.done) && abool(result.isDone)
+//@   ensures value: result.err == err
+//
+// SetResult: the return value says whether this call's Swap found the flag clear (first == true). A
+// winner has published exactly its arguments; a loser wrote nothing.
+//
+//@ func (*Promise).SetResult
+//@   props C11
+//@   requires isprom(p)
+//@   opt frame = skip
+//@   ghost atomic 1: pwin(p) := ite(ret, pwin(p), me)
+//@   ghost close 1: pwin(p) := nil
+//@   ensures winner: result ==> closed(p.done) && cellany(p.result) == val && p.err == err
+//@   ensures loser: !result ==> !written(p.result) && !written(p.err)
+//
+// Awaits: one blocking select that listens to ctx.Done(), the extra channel and done; a return by result
+// hands back the published fields (equal to the winner's arguments by SetResult.winner and T2).
+//
+//@ func (*Promise).Await
+//@   props C11
+//@   requires isprom(p) && ctx != nil
+//@   opt frame = skip
+//@   assert select 1: selects(p.done) && selects(done(ctx))
+//@   ensures source: cancelled(ctx) || closed(p.done)
+//@   ensures byresult: !cancelled(ctx) ==> result0 == cellany(p.result) && result1 == p.err
+//@   ensures either: (result1 == context.Canceled && cancelled(ctx)) || (closed(p.done) && result0 == cellany(p.result) && result1 == p.err)
+//
+//@ func (*Promise).AwaitWithErrCh
+//@   props C11
+//@   requires isprom(p) && ctx != nil
+//@   opt frame = skip
+//@   assert select 1: selects(p.done) && selects(done(ctx)) && selects(errCh)
+//@   ensures either: (result1 == context.Canceled && cancelled(ctx)) || recvs(errCh) > old(recvs(errCh)) || (closed(p.done) && result0 == cellany(p.result) && result1 == p.err)
+//
+//@ func (*Promise).AwaitWithCancelCh
+//@   props C11
+//@   requires isprom(p) && ctx != nil
+//@   opt frame = skip
+//@   assert select 1: selects(p.done) && selects(done(ctx)) && selects(cancelCh)
+//@   ensures either: (result1 == context.Canceled && (cancelled(ctx) || closed(cancelCh))) || (closed(p.done) && result0 == cellany(p.result) && result1 == p.err)
